@@ -159,13 +159,19 @@ func c14ParseMap(raw json.RawMessage) (any, error) {
 	v, err := c14ParseVal(raw)
 	return v, err
 }
-func c14MkMap(p any) map[string]any {
+
+// a map chunk of the static type T (a nil chunk = the nil T)
+func c14MkTMap[T any](p any) T {
 	v := p.(*c14Val)
 	if v == nil {
-		return nil
+		var t T
+		return t
 	}
-	return c14ToGo(v).(map[string]any)
+	return c14ToGo(v).(T)
 }
+
+// a chunk of type any
+func c14MkAny(p any) any { return c14ToGo(p.(*c14Val)) }
 
 func c14ParseStr(raw json.RawMessage) (any, error) {
 	var s string
@@ -199,12 +205,11 @@ func c14ArrOut(ms []*schema.Message) any {
 var (
 	c14OpsMsgs  = c14Ops[*schema.Message]{parse: c14ParseMsg, mk: c14MkMsg, concat: schema.ConcatMessages, out: func(m *schema.Message) any { return c14MsgOut(m) }}
 	c14OpsCMsgs = c14Ops[*schema.Message]{parse: c14ParseMsg, mk: c14MkMsg, concat: c14StreamConcat[*schema.Message], out: func(m *schema.Message) any { return c14MsgOut(m) }}
-	c14OpsMaps  = c14Ops[map[string]any]{parse: c14ParseMap, mk: c14MkMap, concat: c14StreamConcat[map[string]any], out: func(m map[string]any) any { return c14ExtraOut(m) }}
+	c14OpsAnys  = c14Ops[any]{parse: c14ParseMap, mk: c14MkAny, concat: c14StreamConcat[any], out: func(x any) any { return c14Out(x) }}
 	c14OpsStrs  = c14Ops[string]{parse: c14ParseStr, mk: c14MkStr, concat: c14StreamConcat[string], out: func(s string) any { return s }}
 	c14OpsArr   = c14Ops[[]*schema.Message]{parse: c14ParseArr, mk: c14MkArr, concat: c14StreamConcat[[]*schema.Message], out: c14ArrOut}
 
 	c14OpsGMsgs = c14Ops[*schema.Message]{parse: c14ParseMsg, mk: c14MkMsg, concat: c14GraphConcat[*schema.Message], out: func(m *schema.Message) any { return c14MsgOut(m) }}
-	c14OpsGMaps = c14Ops[map[string]any]{parse: c14ParseMap, mk: c14MkMap, concat: c14GraphConcat[map[string]any], out: func(m map[string]any) any { return c14ExtraOut(m) }}
 	c14OpsGStrs = c14Ops[string]{parse: c14ParseStr, mk: c14MkStr, concat: c14GraphConcat[string], out: func(s string) any { return s }}
 )
 
@@ -220,7 +225,37 @@ func c14MkRunner[T any](ops c14Ops[T]) c14Runner {
 	}
 }
 
-func c14RunnerFor(kind string, graph bool) (c14Runner, bool) {
+// map chunks of the static Go type T: directly through concatStreamReader, and through a graph
+func c14MapRunners[T any]() [2]c14Runner {
+	out := func(m T) any { return c14Out(any(m)) }
+	return [2]c14Runner{
+		c14MkRunner(c14Ops[T]{parse: c14ParseMap, mk: c14MkTMap[T], concat: c14StreamConcat[T], out: out}),
+		c14MkRunner(c14Ops[T]{parse: c14ParseMap, mk: c14MkTMap[T], concat: c14GraphConcat[T], out: out}),
+	}
+}
+
+// element type of the chunk type map[string]<et> → runners
+var c14MapRunnersByEt = map[string][2]c14Runner{
+	"any":                          c14MapRunners[map[string]any](),
+	"string":                       c14MapRunners[map[string]string](),
+	"int":                          c14MapRunners[map[string]int](),
+	"float64":                      c14MapRunners[map[string]float64](),
+	"bool":                         c14MapRunners[map[string]bool](),
+	"c14S":                         c14MapRunners[map[string]c14S](),
+	"*c14S":                        c14MapRunners[map[string]*c14S](),
+	"[]string":                     c14MapRunners[map[string][]string](),
+	"map[string]string":            c14MapRunners[map[string]map[string]string](),
+	"map[string]int":               c14MapRunners[map[string]map[string]int](),
+	"map[string]c14S":              c14MapRunners[map[string]map[string]c14S](),
+	"map[string]any":               c14MapRunners[map[string]map[string]any](),
+	"map[string]map[string]string": c14MapRunners[map[string]map[string]map[string]string](),
+}
+
+// the typed chunk types the generator draws from (weights by repetition)
+var c14TopEts = []string{"string", "string", "int", "float64", "bool", "c14S", "c14S", "*c14S", "[]string", "[]string",
+	"map[string]string", "map[string]string", "map[string]int", "map[string]c14S", "map[string]any", "map[string]map[string]string"}
+
+func c14RunnerFor(kind string, et string, graph bool) (c14Runner, bool) {
 	switch kind {
 	case "msgs":
 		return c14MkRunner(c14OpsMsgs), true
@@ -230,10 +265,16 @@ func c14RunnerFor(kind string, graph bool) (c14Runner, bool) {
 		}
 		return c14MkRunner(c14OpsCMsgs), true
 	case "maps":
-		if graph {
-			return c14MkRunner(c14OpsGMaps), true
+		rs, ok := c14MapRunnersByEt[et]
+		if !ok {
+			return c14Runner{}, false
 		}
-		return c14MkRunner(c14OpsMaps), true
+		if graph {
+			return rs[1], true
+		}
+		return rs[0], true
+	case "anys":
+		return c14MkRunner(c14OpsAnys), true
 	case "strs":
 		if graph {
 			return c14MkRunner(c14OpsGStrs), true
@@ -254,17 +295,65 @@ var c14Frag = []string{"a", "b", "{\"x\":", "1}", " ", "é", "zz", "\"q\"", "0"}
 func c14Pick(r *vh.Rand, xs ...string) string { return xs[r.Intn(len(xs))] }
 
 // every key has a "home" type so that most sequences are consistent; clashes are injected
-var c14Home = map[string]string{"a": "string", "b": "int", "c": "map", "d": "c14S", "e": "*c14S", "f": "float64", "g": "c14L", "h": "bool", "i": "int64"}
-var c14Keys = []string{"a", "b", "c", "d", "e", "f", "g", "h", "i"}
-var c14Types = []string{"string", "int", "map", "c14S", "*c14S", "float64", "c14L", "bool", "int64"}
+var c14Home = map[string]string{"a": "string", "b": "int", "c": "map", "d": "c14S", "e": "*c14S", "f": "float64", "g": "c14L", "h": "bool", "i": "int64",
+	"j": "map[string]string", "k": "map[string]int", "l": "map[string]c14S", "m": "map[string][]string", "n": "map[string]map[string]string",
+	"o": "[]string", "p": "map[string]float64", "q": "map[string]any"}
+
+// the first c14FocusKeys keys are drawn more often so that chunks overlap on them
+var c14Keys = []string{"a", "b", "c", "j", "n", "l", "d", "e", "f", "g", "h", "i", "k", "m", "o", "p", "q"}
+
+const c14FocusKeys = 6
+
+var c14Types = []string{"string", "int", "map", "c14S", "*c14S", "float64", "c14L", "bool", "int64",
+	"map[string]string", "map[string]int", "map[string]c14S", "map[string][]string", "map[string]map[string]string", "[]string", "map[string]float64", "map[string]any"}
+
+// keys of typed maps: few, so that one key occurs in 1, 2, 3 … chunks
+var c14TKeys = []string{"x", "y", "z"}
+
+// c14GenTMap: a value of type map[string]<et> (nil, empty, or 1-3 keys with values of type et)
+func c14GenTMap(r *vh.Rand, et string, depth int) *c14Val {
+	if et == "any" {
+		return c14GenMap(r, depth, true)
+	}
+	m := &c14Val{IsMap: true, E: et}
+	switch {
+	case r.Chance(8):
+		m.Nil = true
+		return m
+	case r.Chance(8) || (depth >= 3 && strings.HasPrefix(et, "map[")):
+		return m
+	}
+	used := map[string]bool{}
+	for i := r.Range(1, 3); i > 0; i-- {
+		k := c14TKeys[r.Intn(len(c14TKeys))]
+		if used[k] {
+			continue
+		}
+		used[k] = true
+		m.M = append(m.M, c14KV{k, c14GenVal(r, et, depth)})
+	}
+	c14SortKVs(m)
+	return m
+}
 
 func c14GenVal(r *vh.Rand, ty string, depth int) *c14Val {
+	if strings.HasPrefix(ty, "map[string]") {
+		return c14GenTMap(r, strings.TrimPrefix(ty, "map[string]"), depth+1)
+	}
 	switch ty {
 	case "map":
 		if depth >= 3 {
 			return &c14Val{T: "string", V: "deep"}
 		}
 		return c14GenMap(r, depth+1, true)
+	case "[]string": // zero (nil) most of the time; "-" = empty but not nil (not zero)
+		switch {
+		case r.Chance(55):
+			return &c14Val{T: ty, V: ""}
+		case r.Chance(25):
+			return &c14Val{T: ty, V: "-"}
+		}
+		return &c14Val{T: ty, V: c14Pick(r, "p", "q")}
 	case "string":
 		return &c14Val{T: ty, V: c14Pick(r, "", "x", "yz", "é", "x")}
 	case "int", "int64", "float64":
@@ -289,7 +378,7 @@ func c14GenMap(r *vh.Rand, depth int, allowEmpty bool) *c14Val {
 	for i := 0; i < n; i++ {
 		k := c14Keys[r.Intn(len(c14Keys))]
 		if r.Chance(50) {
-			k = c14Keys[r.Intn(4)] // concentrate on a few keys so that chunks overlap
+			k = c14Keys[r.Intn(c14FocusKeys)] // concentrate on a few keys so that chunks overlap
 		}
 		if used[k] {
 			continue
@@ -406,11 +495,28 @@ func c14GenCase(r *vh.Rand, kind string) *c14Case {
 		if r.Chance(3) {
 			n = 0
 		}
+		if r.Chance(50) { // a typed chunk type: map[string]string, map[string]S, map[string]map[string]string …
+			c.Et = c14TopEts[r.Intn(len(c14TopEts))]
+		}
 		for i := 0; i < n; i++ {
-			if r.Chance(3) {
+			switch {
+			case r.Chance(3):
 				c.Chunks = append(c.Chunks, json.RawMessage("null")) // a nil map chunk
-			} else {
+			case c.Et != "":
+				c.Chunks = append(c.Chunks, c14Raw(c14GenTMap(r, c.Et, 0)))
+			default:
 				c.Chunks = append(c.Chunks, c14Raw(c14GenMap(r, 0, true)))
+			}
+		}
+	case "anys": // chunks of type any: mostly nil, so that all-nil / one non-nil / several non-nil all occur
+		if r.Chance(3) {
+			n = 0
+		}
+		for i := 0; i < n; i++ {
+			if r.Chance(70) {
+				c.Chunks = append(c.Chunks, json.RawMessage("null"))
+			} else {
+				c.Chunks = append(c.Chunks, c14Raw(c14GenVal(r, c14Types[r.Intn(len(c14Types))], 1)))
 			}
 		}
 	case "strs":
@@ -448,17 +554,54 @@ func c14GenCase(r *vh.Rand, kind string) *c14Case {
 
 type c14Feat struct {
 	nilVal, extras, indexed, nilIdx, nilChunk bool
+	typed, nilMap                             bool // a map with a non-any element type / a nil typed map somewhere
 	depth, tcs                                int
+	sameKeyTyped                              int // max number of chunks in which one top-level key holds a typed map / a typed chunk has the key
+}
+
+func c14HasNilMap(v *c14Val) bool {
+	if v == nil || !v.IsMap {
+		return false
+	}
+	if v.Nil && len(v.M) == 0 {
+		return true
+	}
+	for _, kv := range v.M {
+		if c14HasNilMap(kv.V) {
+			return true
+		}
+	}
+	return false
 }
 
 func c14Features(c *c14Case) c14Feat {
 	var f c14Feat
+	perKey := map[string]int{}
+	if c.Kind == "maps" && c.et() != "any" {
+		f.typed = true
+	}
 	visitExtra := func(v *c14Val) {
 		if v == nil {
 			return
 		}
 		if len(v.M) > 0 {
 			f.extras = true
+		}
+		if c14HasTyped(v) {
+			f.typed = true
+		}
+		if c14HasNilMap(v) {
+			f.nilMap = true
+		}
+		if v.IsMap {
+			for _, kv := range v.M {
+				if v.et() != "any" || (kv.V != nil && kv.V.IsMap && kv.V.et() != "any") {
+					perKey[kv.K]++
+					if perKey[kv.K] > f.sameKeyTyped {
+						f.sameKeyTyped = perKey[kv.K]
+					}
+				}
+			}
 		}
 		if c14HasNil(v, true) {
 			f.nilVal = true
@@ -491,6 +634,13 @@ func c14Features(c *c14Case) c14Feat {
 		case "maps":
 			v, _ := c14ParseVal(raw)
 			visitExtra(v)
+		case "anys":
+			v, _ := c14ParseVal(raw)
+			if v == nil {
+				f.nilChunk = true
+			} else if v.IsMap {
+				visitExtra(v)
+			}
 		case "marr":
 			var ms []*c14Msg
 			json.Unmarshal(raw, &ms)
@@ -549,16 +699,16 @@ func c14DiffField(a, b string) string {
 // ---------------------------------------------------------------------------------------
 
 type c14Finding struct {
-	Sig, What    string
-	Model, Impl  any
+	Sig, What   string
+	Model, Impl any
 }
 
 // c14Eval returns the findings of one case (empty = agreement). modelRaw may be nil for kinds
 // without an oracle ("marr").
 func c14Eval(c *c14Case, modelRaw json.RawMessage, graph bool, reps int) ([]c14Finding, c14Res, error) {
-	run, ok := c14RunnerFor(c.Kind, graph)
+	run, ok := c14RunnerFor(c.Kind, c.et(), graph)
 	if !ok {
-		return nil, c14Res{}, fmt.Errorf("unknown kind %q", c.Kind)
+		return nil, c14Res{}, fmt.Errorf("unknown kind %q (element type %q)", c.Kind, c.et())
 	}
 	f := c14Features(c)
 	via := c.Kind
@@ -572,10 +722,21 @@ func c14Eval(c *c14Case, modelRaw json.RawMessage, graph bool, reps int) ([]c14F
 	}
 	panicSig := func(r c14Res) string {
 		shape := "other"
-		if f.nilVal {
+		switch {
+		case strings.Contains(r.Info, "reflect.Value.IsNil"):
+			shape = "isnil-on-non-nillable-map-element" // IsNil called on a string / number / struct map element
+		case strings.Contains(r.Info, "interface conversion: interface is nil"):
+			shape = "nil-interface-result" // ConcatItems asserts a nil interface result to T
+		case f.nilVal:
 			shape = "nil-extra-value"
 		}
 		return fmt.Sprintf("C14:panic:%s:%s", c.Kind, shape)
+	}
+	typedTag := func(sig string) string {
+		if f.typed {
+			return sig + ":typed-map"
+		}
+		return sig
 	}
 	if all.Class == "panic" || all.Class == "hang" {
 		var mdl any
@@ -604,7 +765,7 @@ func c14Eval(c *c14Case, modelRaw json.RawMessage, graph bool, reps int) ([]c14F
 		model := vh.Canon(json.RawMessage(modelRaw))
 		if model != all.canon() && all.Class != "panic" && all.Class != "hang" {
 			field := c14DiffField(model, all.canon())
-			sig := fmt.Sprintf("C14:result-mismatch:%s:%s", c.Kind, field)
+			sig := typedTag(fmt.Sprintf("C14:result-mismatch:%s:%s", c.Kind, field))
 			if field == "class" {
 				var mm map[string]any
 				json.Unmarshal(modelRaw, &mm)
@@ -617,6 +778,8 @@ func c14Eval(c *c14Case, modelRaw json.RawMessage, graph bool, reps int) ([]c14F
 					sig = panicSig(all)
 				} else if f.nilVal {
 					sig += ":nil-extra-value"
+				} else {
+					sig = typedTag(sig)
 				}
 			}
 			out = append(out, c14Finding{Sig: sig, What: fmt.Sprintf("implementation and model disagree on %s (%s)", field, via), Model: json.RawMessage(modelRaw), Impl: all})
@@ -640,13 +803,61 @@ func c14Eval(c *c14Case, modelRaw json.RawMessage, graph bool, reps int) ([]c14F
 		same := sp.canon() == all.canon() || (sp.Class != "ok" && all.Class != "ok")
 		if !same {
 			field := c14DiffField(all.canon(), sp.canon())
-			out = append(out, c14Finding{Sig: fmt.Sprintf("C14:rechunk:%s:%s", c.Kind, field),
+			out = append(out, c14Finding{Sig: typedTag(fmt.Sprintf("C14:rechunk:%s:%s", c.Kind, field)),
 				What:  fmt.Sprintf("concat(concat(chunks[:%d]) :: chunks[%d:]) differs from concat(chunks) on %s (%s)", k, k, field, via),
 				Model: map[string]any{"all": all}, Impl: map[string]any{"split": k, "result": sp}})
 			break
 		}
 	}
+	// chunk boundaries inside a nested map value (theorem concat_split_nested_map), directly on the
+	// implementation: the first nested map value with >= 2 entries is delivered in two consecutive
+	// chunks instead (first entry / the rest)
+	if c.Kind == "maps" && all.Class != "panic" && all.Class != "hang" {
+		if c2, where := c14SplitNested(c); c2 != nil {
+			sp, err := run.all(c2.Chunks)
+			if err != nil {
+				return nil, all, err
+			}
+			switch {
+			case sp.Class == "panic" || sp.Class == "hang":
+				out = append(out, c14Finding{Sig: panicSig(sp), What: fmt.Sprintf("with the nested map %s delivered in two chunks the concatenation %ss (%s): %s", where, sp.Class, via, sp.Info), Impl: sp})
+			case !(sp.canon() == all.canon() || (sp.Class != "ok" && all.Class != "ok")):
+				field := c14DiffField(all.canon(), sp.canon())
+				out = append(out, c14Finding{Sig: typedTag(fmt.Sprintf("C14:split-nested-map:%s:%s", c.Kind, field)),
+					What:  fmt.Sprintf("delivering the nested map %s in two consecutive chunks (first entry / the rest) changes the result on %s (%s)", where, field, via),
+					Model: map[string]any{"one-chunk": all}, Impl: map[string]any{"split-case": c2, "result": sp}})
+			}
+		}
+	}
 	return out, all, nil
+}
+
+// c14SplitNested: the case with the first nested map value (any map type) that has >= 2 entries
+// split over two consecutive chunks: chunk i keeps everything but only the first entry of that
+// map, a new chunk i+1 holds {key: the remaining entries}.
+func c14SplitNested(c *c14Case) (*c14Case, string) {
+	for i, raw := range c.Chunks {
+		v, _ := c14ParseVal(raw)
+		if v == nil || !v.IsMap {
+			continue
+		}
+		for j, kv := range v.M {
+			if kv.V == nil || !kv.V.IsMap || len(kv.V.M) < 2 {
+				continue
+			}
+			first := c14CopyVal(v)
+			first.M[j].V.M = first.M[j].V.M[:1]
+			restMap := c14CopyVal(kv.V)
+			restMap.M = restMap.M[1:]
+			second := &c14Val{IsMap: true, E: v.E, M: []c14KV{{kv.K, restMap}}}
+			n := &c14Case{Kind: c.Kind, Et: c.Et}
+			n.Chunks = append(n.Chunks, c.Chunks[:i]...)
+			n.Chunks = append(n.Chunks, c14Raw(first), c14Raw(second))
+			n.Chunks = append(n.Chunks, c.Chunks[i+1:]...)
+			return n, fmt.Sprintf("under key %q of chunk %d (map[string]%s)", kv.K, i, kv.V.et())
+		}
+	}
+	return nil, ""
 }
 
 // ---- shrinking: drop chunks / fields while the same signature is still produced ----
@@ -655,7 +866,7 @@ func c14CopyVal(v *c14Val) *c14Val {
 	if v == nil {
 		return nil
 	}
-	n := &c14Val{T: v.T, V: v.V, IsMap: v.IsMap}
+	n := &c14Val{T: v.T, V: v.V, IsMap: v.IsMap, E: v.E, Nil: v.Nil}
 	for _, kv := range v.M {
 		n.M = append(n.M, c14KV{kv.K, c14CopyVal(kv.V)})
 	}
@@ -684,7 +895,7 @@ func c14ValEdits(v *c14Val) []*c14Val {
 func c14Candidates(c *c14Case) []*c14Case {
 	var out []*c14Case
 	clone := func() *c14Case {
-		n := &c14Case{Kind: c.Kind, Chunks: append([]json.RawMessage{}, c.Chunks...)}
+		n := &c14Case{Kind: c.Kind, Et: c.Et, Chunks: append([]json.RawMessage{}, c.Chunks...)}
 		return n
 	}
 	for i := range c.Chunks {
@@ -772,7 +983,7 @@ func c14Candidates(c *c14Case) []*c14Case {
 			}
 		}
 	}
-	if c.Kind == "maps" {
+	if c.Kind == "maps" || c.Kind == "anys" {
 		for i, raw := range c.Chunks {
 			v, _ := c14ParseVal(raw)
 			if v == nil {
@@ -824,13 +1035,18 @@ func c14Shrink(ctx *vh.Ctx, c *c14Case, sig string, graph bool) *c14Case {
 	return cur
 }
 
+// how often a signature has been reported in this run (the result keeps 3 per signature:
+// further occurrences are not shrunk again)
+var c14Reported = map[string]int{}
+
 func c14Report(ctx *vh.Ctx, c *c14Case, fs []c14Finding, graph bool) {
 	seen := map[string]bool{}
 	for _, f := range fs {
-		if seen[f.Sig] {
+		if seen[f.Sig] || c14Reported[f.Sig] >= 3 {
 			continue
 		}
 		seen[f.Sig] = true
+		c14Reported[f.Sig]++
 		small := c14Shrink(ctx, c, f.Sig, graph)
 		model, impl := f.Model, f.Impl
 		if small != c {
@@ -860,6 +1076,29 @@ func c14Account(ctx *vh.Ctx, c *c14Case, all c14Res, graph bool) {
 	if f.nilVal {
 		ctx.Res.Dist("has-nil-extra-value")
 	}
+	if c.Kind == "maps" {
+		ctx.Res.Dist("map-chunk-elem=" + c.et())
+	}
+	if f.typed {
+		ctx.Res.Dist("has-typed-map")
+		switch {
+		case f.sameKeyTyped >= 3:
+			ctx.Res.Dist("typed-map-same-key-in-chunks=3+")
+		default:
+			ctx.Res.Dist(fmt.Sprintf("typed-map-same-key-in-chunks=%d", f.sameKeyTyped))
+		}
+		if c.Kind != "maps" || c.et() == "any" {
+			ctx.Res.Dist("typed-map-nested-under-any:" + c.Kind)
+		}
+	}
+	if f.nilMap {
+		ctx.Res.Dist("has-nil-typed-map")
+	}
+	if c.Kind == "maps" {
+		if c2, _ := c14SplitNested(c); c2 != nil {
+			ctx.Res.Dist("split-nested-map-law-checked")
+		}
+	}
 	if f.nilChunk {
 		ctx.Res.Dist("has-nil-chunk")
 	}
@@ -877,13 +1116,13 @@ func c14Account(ctx *vh.Ctx, c *c14Case, all c14Res, graph bool) {
 	default:
 		ctx.Res.Dist("toolcalls=4+")
 	}
-	nontrivial := len(c.Chunks) >= 2 && (c.Kind == "strs" || f.extras || f.indexed)
+	nontrivial := len(c.Chunks) >= 2 && (c.Kind == "strs" || c.Kind == "anys" || f.extras || f.indexed)
 	ctx.Res.Count(c.Kind+"/"+c14Hash(c), nontrivial)
 	ctx.Res.Sample(c)
 }
 
 func runC14(ctx *vh.Ctx) error {
-	ctx.Res.Rule = "random chunk sequences (0-6 chunks) of *schema.Message (ConcatMessages and the compose stream→value conversion), map[string]any, string, []*Message; every field independently absent/zero/set, tool-call fragments with repeated/missing/nil/negative indexes and conflicting id/type/name, nested extras with nil values and type clashes; non-trivial = at least 2 chunks and (string chunks, or a non-empty extra/map, or an indexed tool call); distinct by hash of the whole case"
+	ctx.Res.Rule = "random chunk sequences (0-6 chunks) of *schema.Message (ConcatMessages and the compose stream→value conversion), map[string]any, typed maps (map[string]string/int/float64/bool/S/*S/[]string/map[string]string/map[string]int/map[string]S/map[string]any/map[string]map[string]string), string, any, []*Message; every field independently absent/zero/set, tool-call fragments with repeated/missing/nil/negative indexes and conflicting id/type/name, nested extras with nil values, type clashes and typed maps (nil, empty, the same key in 1, 2, 3+ chunks) under keys of map[string]any chunks and of Message.Extra; non-trivial = at least 2 chunks and (string or any chunks, or a non-empty extra/map, or an indexed tool call); distinct by hash of the whole case"
 	if ctx.Replay != nil {
 		var c c14Case
 		if err := json.Unmarshal(ctx.Replay, &c); err != nil {
@@ -895,7 +1134,7 @@ func runC14(ctx *vh.Ctx) error {
 		}
 		ctx.Progress.Mark(&c)
 		for _, graph := range []bool{false, true} {
-			if graph && (c.Kind == "msgs" || c.Kind == "marr") {
+			if graph && (c.Kind == "msgs" || c.Kind == "marr" || c.Kind == "anys") {
 				continue
 			}
 			fs, all, err := c14Eval(&c, raw, graph, 5)
@@ -913,7 +1152,7 @@ func runC14(ctx *vh.Ctx) error {
 		kind     string
 		quick, t int
 		share    float64 // cumulative share of the time budget after which the kind stops
-	}{{"msgs", 8000, 150000, 0.45}, {"cmsgs", 2000, 40000, 0.60}, {"maps", 4000, 80000, 0.85}, {"strs", 400, 4000, 0.88}, {"marr", 800, 15000, 1.0}}
+	}{{"msgs", 8000, 150000, 0.40}, {"cmsgs", 2000, 40000, 0.52}, {"maps", 6000, 120000, 0.84}, {"strs", 400, 4000, 0.86}, {"anys", 600, 8000, 0.89}, {"marr", 800, 15000, 1.0}}
 	const batch = 250
 	for _, p := range plan {
 		n := ctx.N(p.quick, p.t)
